@@ -1,4 +1,5 @@
 import PeptVerif.Lemmas.Isotope
+import PeptVerif.Lemmas.IsotopeMultinomial
 /-!
 # C14 — isotopic distributions are normalised, centred on the right masses and complete
 
@@ -482,6 +483,28 @@ theorem neutron_view_is_binned_mass_view (e : Entry) (n : Nat) (g : Rat → Rat)
         | cons i r ih => simp only [List.map_cons, integral_cons, ih]
     · intro g; simp [integral]
 
+
+/-- **nfold_conv_eq_multinomial**: for every isotope list, every count `n` and every function `g` of the mass, the `n`-fold
+self-convolution computed by `_calculate_elemental_distribution` (floor off) integrates `g` to the multinomial expansion
+`multi` (iterated binomial form: `Σ_j C(n,j)·a₁^j·(expansion of the other isotopes with n−j atoms, shifted by j·m₁)`); with
+`g` an indicator: the abundance at every mass is the sum of the multinomial terms with that mass. -/
+theorem nfold_conv_eq_multinomial (isos : Dist Rat) (n : Nat) (g : Rat → Rat) :
+    integral (elemental none isos n) g = multi isos n g := by
+  induction n generalizing g with
+  | zero =>
+    cases isos with
+    | nil => simp [elemental, elementalFrom, multi, integral]
+    | cons q t => rw [multi_zero]; simp [elemental, elementalFrom, integral]
+  | succ n ih =>
+    rw [integral_elemental_succ, multi_succ]
+    apply integral_congr
+    intro q _
+    exact ih _
+
+/-- two carbon atoms: the peak at 12 + 13.00335483507 has abundance 2·0.9893·0.0107 -/
+example : multi [((12 : Rat), 9893 / 10000), (1300335483507 / 100000000000, 107 / 10000)] 2
+    (fun k => if k = 2500335483507 / 100000000000 then 1 else 0) = 2 * (9893 / 10000) * (107 / 10000) := by
+  decide +kernel
 
 /-! ## non-vacuity: concrete inputs satisfying the hypotheses -/
 
